@@ -355,6 +355,14 @@ def run_impl(case):
             loaders.set_object_loader(None if case['h'] == 'D' else cc.make_loader(case['h']))
             del cc.LOG[:]
             lctx = None if case['l'] == '-' else plumpy.LoadSaveContext(loader=cc.make_loader(case['l']))
+            # one load in three names the loop in the load context and is made from a thread WITHOUT a current event loop: what the
+            # context says is what counts
+            import asyncio as _aio
+            import zlib as _zlib
+            no_loop = _zlib.crc32(repr(obs['save']).encode()) % 3 == 0
+            if no_loop:
+                lctx = plumpy.LoadSaveContext(loop=env['loop']) if lctx is None else lctx.copyextend(loop=env['loop'])
+                _aio.set_event_loop(None)
             try:
                 loaded = plumpy.Savable.load(state, lctx)
                 obs['load'] = render_val(loaded, None)
@@ -362,6 +370,9 @@ def run_impl(case):
                 obs['checks'] = check_restored(case['obj'], loaded, None, sets, 'obj')
             except BaseException as e:  # noqa
                 obs['load'] = 'err:' + type(e).__name__
+            finally:
+                if no_loop:
+                    _aio.set_event_loop(env['loop'])
             # ONE caller-supplied context (without loader) used for two loads in a row: the second state carries no recorded
             # loader and must be resolved through the global default, whatever the first load resolved
             if lctx is None and not obs['load'].startswith('err:'):
@@ -884,6 +895,38 @@ def hook_stream(_=None):
     return fails
 
 
+def odd_members_stream(_=None):
+    """impl-only: declared members that are not plain instance attributes - a property with a setter, a class with its own
+    __setattr__ - are restored like any other (through the attribute protocol of the class)"""
+    common.ensure_repo_on_path()
+    import plumpy
+    from harness.props import c19_classes as cc
+    fails = []
+
+    def bad(cls, what, detail):
+        fails.append(dict(signature='odd-member-not-restored', clause='saving and recreating restores every member declared with auto_persist',
+                          detail=dict(cls=cls, what=what, detail=detail), case=dict(odd_members=True)))
+    try:
+        g = cc.Gauge()
+        g.level = 8
+        back = plumpy.Savable.load(g.save(), None)
+        if getattr(back, 'level', '<missing>') != 8 or getattr(back, 'n', '<missing>') != 1:
+            bad('Gauge', 'property-backed member', repr((getattr(back, 'level', '<missing>'), getattr(back, 'n', '<missing>'))))
+    except BaseException as e:  # noqa
+        bad('Gauge', 'round trip raised', type(e).__name__ + ': ' + str(e)[:120])
+    try:
+        a = cc.Audited()
+        a.inner.level = 4
+        back = plumpy.Savable.load(a.save(), None)
+        inner = getattr(back, 'inner', None)
+        if getattr(back, 'x', None) != [5] or getattr(inner, 'level', '<missing>') != 4 or back.__dict__.get('assignments', 0) < 2:
+            bad('Audited', 'members assigned through the class\'s __setattr__, nested Savable with a property',
+                repr((getattr(back, 'x', None), getattr(inner, 'level', '<missing>'), back.__dict__.get('assignments'))))
+    except BaseException as e:  # noqa
+        bad('Audited', 'round trip raised', type(e).__name__ + ': ' + str(e)[:120])
+    return fails
+
+
 HOOK_WANT = {'HookParent': dict(x=1), 'HookChild': dict(x=1, y=[2]), 'HookGrandChild': dict(x=1, y=[2], z=3)}
 
 
@@ -933,6 +976,8 @@ def run(ctx):
     with mp.Pool(len(orders), maxtasksperchild=1) as pool:          # one fresh interpreter state per order
         for fs in pool.map(hook_stream, orders, chunksize=1):
             failures.extend(fs)
+    with mp.Pool(1, maxtasksperchild=1) as pool:
+        failures.extend(pool.apply(odd_members_stream))
     with mp.Pool(3, maxtasksperchild=1) as pool:                    # saved in one interpreter, loaded in another
         saved = pool.map(hook_save, ('HookParent', 'HookChild', 'HookGrandChild'), chunksize=1)
         for fs in pool.map(hook_load, saved, chunksize=1):
@@ -973,6 +1018,10 @@ def run(ctx):
 
 
 def replay(ctx, failure):
+    if failure['case'].get('odd_members'):
+        with mp.Pool(1, maxtasksperchild=1) as pool:
+            fs = pool.apply(odd_members_stream)
+        return dict(failures=[dict(signature=f['signature'], detail=f['detail']) for f in fs])
     if failure['case'].get('fresh_interpreter'):
         with mp.Pool(1, maxtasksperchild=1) as pool:
             saved = pool.apply(hook_save, (failure['case']['cls'],))
